@@ -15,6 +15,7 @@ import (
 // text starts with `|` continues the previous line:
 //
 //	//@ pred NAME(p1, p2) := body
+//	//@ ghostsum NAME(s, i) := term over s[i]   (prefix sum: NAME(s,0)=0, NAME(s,i+1)=NAME(s,i)+term; int mode)
 //	//@ opaque NAME(p1, p2) := body     (an uninterpreted predicate of its arguments and the heaps
 //	//                                   it reads, except in functions that say `reveal NAME`)
 //	//@ func (*Writer).WriteBits
@@ -105,6 +106,23 @@ func (cs *ContractSet) parseFile(pkgPath, file string, f *ast.File) {
 		if strings.HasSuffix(kw, "!") {
 			slow = true
 			kw = kw[:len(kw)-1]
+		}
+		if kw == "ghostsum" {
+			// ghostsum NAME(s, i) := body over s[i]
+			head, body, ok := strings.Cut(rest, ":=")
+			i := strings.Index(head, "(")
+			if !ok || i < 0 {
+				errf("bad ghostsum: %s", ln)
+				continue
+			}
+			ps := strings.Split(strings.TrimSuffix(strings.TrimSpace(head[i+1:]), ")"), ",")
+			if len(ps) != 2 {
+				errf("ghostsum takes (slice, index): %s", ln)
+				continue
+			}
+			name := strings.TrimSpace(head[:i])
+			cs.Preds[name] = predDef{params: []string{strings.TrimSpace(ps[0]), strings.TrimSpace(ps[1])}, body: strings.TrimSpace(body), sum: true}
+			continue
 		}
 		switch kw {
 		case "consts":
@@ -213,6 +231,17 @@ func (cs *ContractSet) parseFile(pkgPath, file string, f *ast.File) {
 					cur.Callbacks = map[string]string{}
 				}
 				cur.Callbacks[fs[0]] = fs[1]
+			case "reset":
+				fs := strings.Fields(rest)
+				if len(fs) < 1 {
+					errf("bad reset clause: %s", ln)
+					continue
+				}
+				r := Reset{Param: fs[0]}
+				if len(fs) > 2 && fs[1] == "keep" {
+					r.Keep = fs[2:]
+				}
+				cur.Resets = append(cur.Resets, r)
 			case "except":
 				cur.Except = append(cur.Except, strings.Fields(rest)...)
 			case "reveal":
